@@ -315,6 +315,10 @@ fn reply_like_packets() -> Vec<Vec<u8>> {
         vec![0x80, 0x00, 0xff, 0x00, 0x00],
         vec![0x80, 0x00, 0xff, 0x02, 0x00, 0x80, 0x00],
         vec![0x06, 0xd3, 0x05, 0x80, 0x00, 0x00, 0x06, 0x0f],
+        // extended length form in front of short bodies that look like packets themselves
+        vec![0x04, 0x0f, 0xff, 0x03, 0x00, 0x06, 0x0f, 0x00],
+        vec![0x06, 0x1e, 0xff, 0x04, 0x00, 0x6c, 0x80, 0x00, 0x00],
+        vec![0x84, 0x9c, 0xff, 0x00, 0x00],
     ]
 }
 
